@@ -295,7 +295,8 @@ def run(ctx):
     model_ok = ctx.coq_model(["Spec/C17.vo"])
     ctx.coq_proofs("Properties/C17.v")
     cfgs, cases = {}, []
-    if ctx.harness_build("c17"):
+    built = ctx.harness_build("c17")
+    if built:
         n = 25 if quick else 400
         ok, _ = ctx.harness_run("c17", ["-out", "cases.jsonl", "-seed", ctx.seed, "-n", n, "-wire", 4 if quick else 8,
                                         "-jobs", 4, "-corpus", os.path.join(verif.ROOT, "corpus", "C17")], timeout=1500)
@@ -346,7 +347,7 @@ def run(ctx):
             ctx.cov["traces_validated_against_impl"] += len(flat)
         if nbroken > 8:
             ctx.info.append("%d cases disagree with the model in total" % nbroken)
-    if ctx.broken and not ctx.findings and os.path.exists(os.path.join(verif.ROOT, "harness", "bin", "c17")):
+    if ctx.broken and not ctx.findings and built:
         # a proof or the tie broke and no case of the standard budget fails the property: look harder
         ok, _ = ctx.harness_run("c17", ["-out", "search.jsonl", "-seed", ctx.seed + 977, "-n", 150 if quick else 1200,
                                         "-wire", 6, "-jobs", 4], timeout=2400)
